@@ -857,8 +857,8 @@ def grid(tier, extra=True):
     add("NonStationaryFilters1D", n=8, nh=3, ih=[1, 3, 5])
     for engine in ("numpy", "numba"):
         add("NonStationaryConvolve2D", dims=[6, 5], hshape=[3, 3], ihx=[1, 4], ihz=[1, 3], engine=engine)
-        if engine == "numpy":
-            add("NonStationaryFilters2D", dims=[6, 5], hshape=[3, 3], ihx=[1, 4], ihz=[1, 3], engine=engine)
+        add("NonStationaryFilters2D", dims=[6, 5], hshape=[3, 3], ihx=[1, 4], ihz=[1, 3], engine=engine)
+        add("NonStationaryFilters2D", dims=[8, 7], hshape=[3, 5], ihx=[1, 3, 5], ihz=[2, 5], engine=engine)
     for ty in (1, 2, 3, 4):
         add("DCT", dims=[5], type=ty)
         add("DCT", dims=[3, 4], type=ty, axes=[0] if ty % 2 else None)
